@@ -17,6 +17,21 @@ CHECKS = {
         text="For every constructor tree of a bounded grammar (depth<=2 complete; depth-3 spines in thorough) x {sqlite, postgresql, mysql} x {literal_binds, bound parameters} the SQL emitted by the real compiler is parsed with the backend's operator-precedence grammar and z3 proves (unsat) that it denotes the same value as the intended tree for all column/parameter values and NULL patterns, or returns a row on which they differ; SQLite disagreements are confirmed by executing both texts on the linked sqlite3.",
         note="Trusted: reference grammars in vlib/sqlparse.py (hand-written from SQLite parse.y / PostgreSQL gram.y / MySQL sql_yacc.yy), value semantics in vlib/sqlsem.py, z3, sqlite3. PostgreSQL/MySQL verdicts rest on the reference grammar only (no server offline). `*`, `/`, `%`, `||`, LIKE, CAST are uninterpreted (position-sensitive).",
         ref="DESIGN.md §4 C01"),
+    "C23": dict(engine=E1, category="other",
+        technique="solver-decided operation histories (CrossHair proxies + z3, path-exhaustive within bounds) driving the real Engine/Connection/Transaction classes over a transactional fake DBAPI, compared with a nested-transaction reference model; concrete replay",
+        text="Every history of <=4 (thorough: 5 over a reduced alphabet) steps of insert/begin/begin_nested/commit/rollback/close, operations on active, ended and stale handles, with-block enter/exit (normal/exception), close+reconnect, get_transaction and a failing DBAPI commit is decided: after each step in_transaction(), in_nested_transaction(), every handle's is_active, the rows committed on the server, the uncommitted rows and the open savepoints of the DBAPI connection equal the model, and operations on ended transactions raise without touching the DBAPI. Bounded claim; exhaustion per slice in evidence.",
+        note="Trusted: fake DBAPI (standard SAVEPOINT semantics; savepoints as statements through exec_driver_sql), reference model in props/C23.py, CrossHair int/tuple models and z3. The history is chosen by the solver, then SQLAlchemy runs concretely on it (no symbolic value reaches the engine code). Out-of-order savepoint misuse is checked for rows only.",
+        ref="DESIGN.md §4 C23"),
+    "C24": dict(engine=E1, category="other",
+        technique="solver-decided session histories (CrossHair + z3, path-exhaustive within bounds) over QueuePool/StaticPool/SingletonThreadPool/NullPool/AssertionPool x pool_reset_on_return in {rollback, commit, None} on a fake DBAPI whose connection state is inspected at every checkout; concrete replay",
+        text="For every pool class and reset_on_return setting and every history of <=2 (thorough: 3) sessions (isolation level/AUTOCOMMIT option x shape of work left behind x ending: close, commit+close, exception in a with block, dropped+gc, invalidate, failed DBAPI commit+close) the DBAPI connection handed out next has no uncommitted rows, savepoints, open transaction or non-default isolation level/autocommit (for None only the isolation level), and rows a user did not commit are never committed later (rollback) / all-or-nothing (commit). Bounded claim.",
+        note="Trusted: vlib/fakedb.py, model in props/C24.py, z3/CrossHair int models. gc is disabled during a history and run explicitly at 'dropped+gc'. SQLAlchemy code runs concretely after the solver fixed the history.",
+        ref="DESIGN.md §4 C24"),
+    "C27": dict(engine=E1, category="other",
+        technique="solver-decided histories with a symbolic fault position/kind (CrossHair + z3, path-exhaustive within bounds) on the real Engine/Connection/QueuePool over a fake DBAPI with fault injection and handle_error listeners; concrete replay",
+        text="For every history of <=4 (thorough: 5) steps of execute/begin/begin_nested/commit/rollback/savepoint commit/rollback, every position (cursor() or statement) of one DBAPI error, kind (disconnect / looks-like-disconnect / ordinary) and handle_error listener (none, passive, flips is_disconnect, clears invalidate_pool_on_disconnect): DBAPIError.connection_invalidated and Connection.invalidated are right, the DBAPI connection is closed, no DBAPI connection opened before the disconnect is ever handed out again, every further use raises InvalidRequestError/PendingRollbackError without reconnecting until rollback(), then the Connection works on a new DBAPI connection; ordinary errors leave connection and pool contents identical. Bounded claim.",
+        note="Trusted: fake DBAPI extension in props/C27.py (savepoints as statements, 'softdisc' fault), pool clock stubbed to a strictly increasing counter (the code's own stated assumption), model in props/C27.py. One fault per history; pool reset faults belong to C26.",
+        ref="DESIGN.md §4 C27"),
     "C54": dict(
         engine=E1, category="other",
         technique="symbolic execution of the real pure-Python collection classes (CrossHair proxies + z3), path-exhaustive within bounds, concrete replay",
